@@ -48,8 +48,15 @@ def _lab(proxy):
     return getattr(proxy.func, "label", repr(proxy.func))
 
 
+_KEEP = []
+
+
 def _concrete(d):
+    """the fields REP talks about.  The registry's proxy objects seen here are kept alive for the rest of the replay: like the proof
+    (weak references never die, see TRUSTED) the replay judges the code without relying on CPython's reference counting to empty the
+    WeakKeyDictionary of _func_cid_map the moment a registration is deleted"""
     reg = d.cb_registry
+    _KEEP.extend(p for cd in reg.callbacks.values() for p in cd.values())
     return {"tokens": {t: list(v) if isinstance(v, (list, tuple)) else [v] for t, v in d._token_mapping.items()},
             "callbacks": {sig.name: [(cid, _lab(p)) for cid, p in cd.items()] for sig, cd in reg.callbacks.items()},
             "func_cid": {sig.name: [(_lab(p), cid) for p, cid in m.items()] for sig, m in reg._func_cid_map.items()}}
@@ -126,7 +133,7 @@ def history(model, info, art):
         raised = []
         try:
             if kind == "subscribe":
-                t = d.subscribe(cbs[c], filt)
+                t = d.subscribe(*V["subscribe_args"](c, filt, cbs))
                 p = V["fresh_token_problems"](view, t)
                 if p:
                     found.append((i, "fresh", p))
@@ -212,6 +219,13 @@ def engine_history(model, info, art):
     view = V["View"]()
     tokens = []
     found = []
+    returned = []       # what the real Dispatcher.subscribe returned (the per-call subscription's token is not handed to the caller)
+    real_subscribe = d.subscribe
+
+    def recording_subscribe(*a, **k):
+        returned.append(real_subscribe(*a, **k))
+        return returned[-1]
+    d.subscribe = recording_subscribe
 
     def received():
         out = {n: [lab for lab, name in log if name == n] for n in RUN_NAMES}
@@ -262,7 +276,7 @@ def engine_history(model, info, art):
         kind, c, filt, _ = V["parse"](ops[i0])
         view.call_started()
         if c is not None:
-            mine = [t for t in RE._temp_callback_ids]
+            mine = list(returned)
             if len(mine) != 1:
                 found.append((i0, "fresh", [f"the per-call subscription produced the tokens {mine} (expected one)"]))
                 raise _Stop
@@ -304,6 +318,7 @@ def engine_history(model, info, art):
             end = calls[k + 1] if k + 1 < len(calls) else len(ops)
             kind, c, filt, _ = V["parse"](ops[i0])
             subs = None if c is None else (cbs[c] if filt == "all" else {filt: [cbs[c]]})
+            del returned[:]
             try:
                 RE(plan(i0, [(i, ops[i]) for i in range(i0 + 1, end)]), subs)
             except _Stop:
